@@ -349,6 +349,84 @@ def capture_alternative_probes(ctx, d):
     d.flags = saved
 
 
+def repeated_group_stratum(ctx, d):
+    """A group carrying `times`, on listings where every repetition takes ANOTHER alternative / ordering than the one before (and on
+    near misses): the repetition repeats the group, not the choice made in its first round. Instruction and operand level;
+    identical at every seed."""
+    from jv import dsl, listing as L
+    rows = [["push", "inc", "inc", "push"], ["inc", "push", "push", "inc"], ["push", "inc", "push", "inc"], ["push", "push", "inc", "inc"],
+            ["push", "inc", "inc", "push", "push", "inc"], ["push", "inc", "inc"], ["inc", "inc", "push", "push", "inc", "push"]]
+    insts, addr = [], 0x401000
+    for row in rows:
+        for m in ["hlt"] + row + ["ret"]:
+            insts.append(L.SInst(addr, m, ["%rax"] if m in ("push", "inc") else [], None, None, 2))
+            addr += 2
+    for ops in (["%rax", "%rbx", "%rbx", "%rax"], ["%rbx", "%rax", "%rax", "%rbx"], ["%rax", "%rbx", "%rax", "%rbx"], ["%rax", "%rax", "%rbx", "%rbx"], ["%rax", "%rbx", "%rbx"]):
+        insts.append(L.SInst(addr, "vfoo", ops + ["%rdx"], None, None, 6, verbatim=True))
+        addr += 6
+    prep = dsl.Prepared(d.ws, insts, ctx.rng)
+    ctx.ran()
+    if not prep.verify(d.ws):
+        ctx.inconc("parser disagreement on synthetic listing")
+        return
+    saved, d.flags = d.flags, "none"
+    d.prep, d.style = prep, "repeated-groups"
+    for t in (2, 3, {"min": 1, "max": 3}, {"min": 2, "max": 2}):
+        for kind in ("$and_any_order", "$or", "$and"):
+            d.run_pattern(["hlt", {kind: ["push", "inc"], "times": t}, "ret"], "base", True)
+            d.run_pattern(["hlt", {kind: ["inc", "push"], "times": t}, "ret"], "base", True)
+            d.run_pattern([{"vfoo": [{kind: ["%rax", "%rbx"], "times": t}, "%rdx"]}], "base", True)
+            d.run_pattern([{"vfoo": [{kind: ["%rbx", "%rax"], "times": t}, "%rdx"]}], "base", True)
+            ctx.event("repeated_group_cells", 4)
+        # a repeated group inside another group, and a repeated any-order of groups
+        d.run_pattern(["hlt", {"$and": [{"$and_any_order": ["push", "inc"], "times": t}]}, "ret"], "base", True)
+        d.run_pattern(["hlt", {"$and_any_order": [{"$or": ["push", "inc"]}, {"$or": ["inc", "push"]}], "times": t}, "ret"], "base", True)
+        ctx.event("repeated_group_cells", 2)
+    d.flags = saved
+
+
+def mapping_spelling_stratum(ctx, ws):
+    from jv import real
+    """The children of an operator written as ONE mapping (`$and: {push: [%rbp], mov: [%rsp, %rbp]}`) instead of a list of one-key
+    mappings: where the rule loads at all, the children are the entries in the order they are written, so the rule reports what
+    its list spelling reports (keys in and out of alphabetical order). Identical at every seed; no model."""
+    from jv import listing as L
+    rows = [("push", ["%rbp"]), ("mov", ["%rsp", "%rbp"]), ("ret", []), ("mov", ["%rsp", "%rbp"]), ("push", ["%rbp"]), ("ret", []),
+            ("add", ["$0x8", "%rsp"]), ("sub", ["$0x8", "%rsp"]), ("xor", ["%eax", "%eax"]), ("ret", []), ("xor", ["%eax", "%eax"]), ("sub", ["$0x8", "%rsp"]), ("add", ["$0x8", "%rsp"])]
+    insts, addr = [], 0x401000
+    for m, ops in rows:
+        insts.append(L.SInst(addr, m, list(ops), None, None, 3))
+        addr += 3
+    lp = ws.write("map.s", L.render(insts, ctx.rng, labels=False))
+    for kind in ("$and", "$or", "$and_any_order"):
+        for kids in ([("push", ["%rbp"]), ("mov", ["%rsp", "%rbp"])], [("mov", ["%rsp", "%rbp"]), ("push", ["%rbp"])],
+                     [("xor", ["%eax"]), ("sub", ["0x8"]), ("add", ["0x8", "%rsp"])], [("add", ["0x8"]), ("sub", ["0x8"]), ("xor", ["%eax", "%eax"])]):
+            as_list = real.dump_rule({"pattern": [{kind: [{m: o} for m, o in kids]}]})
+            as_map = real.dump_rule({"pattern": [{kind: {m: o for m, o in kids}}]})
+            r1 = real.match(ws.write("map_l.yaml", as_list), lp, ret="list", search="all", only_addr=False)
+            r2 = real.match(ws.write("map_m.yaml", as_map), lp, ret="list", search="all", only_addr=False)
+            ctx.ran(2)
+            if r2[0] != "ok":
+                ctx.event("mapping_spelling_rejected_by_the_loader")
+                continue
+            ctx.event("mapping_spelling_cells")
+            ctx.case(("mapping-spelling", as_map), bool(r1[1]), stratum="children written as one mapping", outcome="found" if r2[1] else "not found")
+            if r1[0] != "ok" or list(r1[1]) != list(r2[1]):
+                ctx.disagreement({"mapping_spelling": True, "rule": as_map, "list_rule": as_list, "listing": open(lp).read()},
+                                 f"{kind} with its children written as one mapping reports {str(r2[1])[:160]}; written as a list, in the same order, {str(r1[1:2])[:160]}")
+
+
+def replay_mapping(ctx, case):
+    from jv import real
+    ws = real.Workspace()
+    lp = ws.write("map.s", case["listing"])
+    r1 = real.match(ws.write("map_l.yaml", case["list_rule"]), lp, ret="list", search="all", only_addr=False)
+    r2 = real.match(ws.write("map_m.yaml", case["rule"]), lp, ret="list", search="all", only_addr=False)
+    ctx.ran(2)
+    if r2[0] == "ok" and (r1[0] != "ok" or list(r1[1]) != list(r2[1])):
+        ctx.disagreement(case, f"children written as one mapping: {str(r2[1])[:160]}; as a list: {str(r1[1:2])[:160]}")
+
+
 def run_shard(ctx):
     d = drive.Driver(ctx, feat, flags="random", styles=("mixed", "runs", "dups"))
     d.loop(3000, 250000)
@@ -358,9 +436,15 @@ def run_shard(ctx):
     shared_list_stratum(ctx, d)
     if ctx.shard == 6 % ctx.nshards:
         capture_alternative_probes(ctx, d)
+    if ctx.shard == 7 % ctx.nshards:
+        repeated_group_stratum(ctx, d)
+    if ctx.shard == 5 % ctx.nshards:
+        mapping_spelling_stratum(ctx, d.ws)
 
 
 def replay(ctx, case):
+    if case.get("mapping_spelling"):
+        return replay_mapping(ctx, case)
     if case.get("desc") == "law":
         return replay_law(ctx, case)
     drive.replay_dsl(ctx, case)
